@@ -58,8 +58,44 @@ pub enum Api {
     InnerClient,
     /// `crux_http::command::Http::post(..).middleware(..).build()`
     CommandApi,
+    /// "Prepared request": a `Request` built with `Request::new` + `insert_header` + `body_string`
+    /// + `Request::middleware(..)` for every atom of the stack, then handed to the `Client` a
+    /// middleware was given (the only public entry that accepts a `Request`; the capability's
+    /// own client is private): `client.send(prepared)`
+    PreparedMoved,
+    /// `client.send(prepared.clone())` (a clone keeps head and middleware, not the body)
+    PreparedClone,
+    /// `client.send(prepared.clone().clone())`
+    PreparedCloneOfClone,
+    /// `client.send(prepared.clone())` twice in a row, the second response is returned
+    PreparedTwice,
+    /// `client.recv_string(prepared.clone())`, the text handed back in a 203 response
+    PreparedRecvString,
 }
-pub const APIS: &[Api] = &[Api::CapSend, Api::CapAsync, Api::InnerClient, Api::CommandApi];
+pub const APIS: &[Api] = &[
+    Api::CapSend,
+    Api::CapAsync,
+    Api::InnerClient,
+    Api::CommandApi,
+    Api::PreparedMoved,
+    Api::PreparedClone,
+    Api::PreparedCloneOfClone,
+    Api::PreparedTwice,
+    Api::PreparedRecvString,
+];
+
+impl Api {
+    fn is_prepared(self) -> bool {
+        matches!(
+            self,
+            Api::PreparedMoved | Api::PreparedClone | Api::PreparedCloneOfClone | Api::PreparedTwice | Api::PreparedRecvString
+        )
+    }
+    /// the request that is sent is a clone of the prepared one (so it has no body)
+    fn sends_a_clone(self) -> bool {
+        self.is_prepared() && self != Api::PreparedMoved
+    }
+}
 
 #[derive(Debug, Clone, Copy, PartialEq, Eq, PartialOrd, Ord, Serialize, Deserialize)]
 pub enum Loc {
@@ -519,7 +555,25 @@ pub fn expect(cfg: &Config, stack: &[(Atom, String)], answers: &[Answer], policy
         body: if cfg.get { vec![] } else { BODY.as_bytes().to_vec() },
         stale_url: None,
     };
-    match run.chain(stack, req) {
+    let mut req = req;
+    if cfg.api.sends_a_clone() {
+        req.body = vec![]; // http-types' Request::clone keeps the head, not the body
+    }
+    fn go(run: &mut RefRun<'_>, api: Api, stack: &[(Atom, String)], req: RReq) -> Result<Resp, Pending> {
+        match api {
+            Api::PreparedTwice => {
+                let first = run.chain(stack, req.clone())?;
+                run.out.marks.push(format!("prepared first-sent {}", first.mark()));
+                run.chain(stack, req)
+            }
+            Api::PreparedRecvString => Ok(match run.chain(stack, req)? {
+                Resp::Ok { body, .. } => Resp::Ok { status: 203, body, location: None },
+                e => e,
+            }),
+            _ => run.chain(stack, req),
+        }
+    }
+    match go(&mut run, cfg.api, stack, req) {
         Ok(r) => run.out.outcome = Some(outcome_of(cfg.api, &r)),
         Err(Pending) => {}
     }
@@ -611,6 +665,52 @@ impl Middleware for Forward {
             }
         }
         client.send(req).await
+    }
+}
+
+/// Request middleware that sends a *prepared* `Request` (its own, carrying `stack` as
+/// per-request middleware) through the `Client` it was given, in the way `mode` says.
+struct Prepared {
+    stack: Vec<(Atom, String)>,
+    log: Log,
+    mode: Api,
+    get: bool,
+}
+
+#[async_trait]
+impl Middleware for Prepared {
+    async fn handle(&self, _req: Request, client: Client, _next: Next<'_>) -> crux_http::Result<ResponseAsync> {
+        let mut prepared = Request::new(if self.get { Method::Get } else { Method::Post }, Url::parse(ORIGIN).unwrap());
+        prepared.insert_header(TOKEN.0, TOKEN.1);
+        if !self.get {
+            prepared.body_string(BODY.to_string());
+        }
+        for (atom, tag) in &self.stack {
+            match atom {
+                Atom::Redirect(n) => prepared.middleware(Redirect::new(*n)),
+                a => prepared.middleware(AtomMw { atom: *a, tag: tag.clone(), log: self.log.clone() }),
+            }
+        }
+        match self.mode {
+            Api::PreparedMoved => client.send(prepared).await,
+            Api::PreparedClone => client.send(prepared.clone()).await,
+            Api::PreparedCloneOfClone => {
+                let copy = prepared.clone();
+                client.send(copy.clone()).await
+            }
+            Api::PreparedTwice => {
+                let first = client.send(prepared.clone()).await;
+                self.log.lock().unwrap().push(format!("prepared first-sent {}", res_mark(&first)));
+                client.send(prepared.clone()).await
+            }
+            Api::PreparedRecvString => {
+                let text = client.recv_string(prepared.clone()).await?;
+                let mut res = crux_http::http::Response::new(203);
+                res.set_body(text);
+                Ok(ResponseAsync::from(res))
+            }
+            _ => unreachable!("not a prepared-request mode"),
+        }
     }
 }
 
@@ -709,6 +809,10 @@ fn start(cfg: &Config, log: &Log) -> (Host, crate::app::Step) {
                         });
                     }
                     Api::CommandApi => unreachable!(),
+                    mode => {
+                        b.middleware(Prepared { stack: stack[n_client..].to_vec(), log: log.clone(), mode, get })
+                            .send(Event::Bytes);
+                    }
                 }
                 crux_core::Command::done()
             });
@@ -987,6 +1091,20 @@ pub fn check_node(cfg: &Config, stack: &[(Atom, String)], answers: &[Answer]) ->
             Ignored::No => {}
         }
     }
+    if finding.is_some() && cfg.api.sends_a_clone() && !stack.is_empty() {
+        // the run of the same request without any middleware: the clone lost its stack
+        let bare = Config { api: cfg.api, client: vec![], request: vec![], get: cfg.get };
+        if matches_exp(&expect(&bare, &[], answers, DEFAULT_POLICY), &trace) {
+            finding = Some((
+                "prepared-request/middleware-lost-on-clone".into(),
+                format!(
+                    "a clone of a Request prepared with .middleware({:?}) runs exactly like one without middleware: {}",
+                    cfg.request,
+                    finding.unwrap().1
+                ),
+            ));
+        }
+    }
     NodeResult { trace, steps, finding, panicked: false }
 }
 
@@ -1136,7 +1254,7 @@ fn stack_configs() -> Vec<Config> {
                         v.push(Config { api: *api, client: s[..split].to_vec(), request: s[split..].to_vec(), get: false });
                     }
                 }
-                Api::InnerClient | Api::CommandApi => {
+                _ => {
                     v.push(Config { api: *api, client: vec![], request: s.clone(), get: false });
                 }
             }
@@ -1152,6 +1270,7 @@ fn redirect_configs(n: u8) -> Vec<Config> {
         Config { api: Api::CapAsync, client: vec![], request: vec![Atom::Redirect(n)], get: false },
         Config { api: Api::InnerClient, client: vec![], request: vec![Atom::Redirect(n)], get: false },
         Config { api: Api::CommandApi, client: vec![], request: vec![Atom::Redirect(n)], get: false },
+        Config { api: Api::PreparedClone, client: vec![], request: vec![Atom::Redirect(n)], get: false },
     ]
 }
 
@@ -1488,7 +1607,7 @@ pub fn run(tier: Tier) -> i32 {
         "traces_validated_against_impl": total.validated,
         "evaluations": total.evaluations,
         "distinct_nontrivial": total.nontrivial,
-        "rule": "bounded-exhaustive exploration of environment answers (model_checking: stateless DFS, no sampling): a state is a (configuration, answer prefix) pair that the implementation really reaches; at every state the real code is re-executed from scratch with the prefix, and shell requests, middleware marks and outcome are compared with the reference interpreter run on the same prefix; when the implementation waits for an answer every answer of the alphabet is tried. Part 'stacks': every split of every middleware sequence of length 0..=3 over the atoms into client and request middleware, for each API; answers enumerated for the first `stack_branch_depth` shell requests, 200 afterwards. Part 'redirect': Redirect(n) alone as request middleware / client middleware / awaited / through the inner Client / in the command API, every answer sequence of length <= n+1. States are distinct by construction (a node is visited once per configuration); non-trivial = everything except the empty stack before the first answer. Part 'redirect' also holds the tricky-relative-reference family: Redirect(2) in four placements x {POST with body, GET}, every answer sequence of length <= 3 over 302 x each tricky reference, two ordinary redirects, 200, 404 (so every tricky reference is met at hop 1 and at hop 2, where the current URL differs from the original). Below a deviating state nothing is explored",
+        "rule": "bounded-exhaustive exploration of environment answers (model_checking: stateless DFS, no sampling): a state is a (configuration, answer prefix) pair that the implementation really reaches; at every state the real code is re-executed from scratch with the prefix, and shell requests, middleware marks and outcome are compared with the reference interpreter run on the same prefix; when the implementation waits for an answer every answer of the alphabet is tried. Part 'stacks': every split of every middleware sequence of length 0..=3 over the atoms into client and request middleware, for each API (incl. the five prepared-Request ways of sending: the Request itself, a clone, a clone of a clone, two clones in a row, recv_string of a clone - through the Client a middleware is given, the only public entry that accepts a Request); answers enumerated for the first `stack_branch_depth` shell requests, 200 afterwards. Part 'redirect': Redirect(n) alone as request middleware / client middleware / awaited / through the inner Client / in the command API / on a clone of a prepared Request, every answer sequence of length <= n+1. States are distinct by construction (a node is visited once per configuration); non-trivial = everything except the empty stack before the first answer. Part 'redirect' also holds the tricky-relative-reference family: Redirect(2) in four placements x {POST with body, GET}, every answer sequence of length <= 3 over 302 x each tricky reference, two ordinary redirects, 200, 404 (so every tricky reference is met at hop 1 and at hop 2, where the current URL differs from the original). Below a deviating state nothing is explored",
         "exhaustive": cut == 0 && !stopped_after_smoke,
         "jobs_cut_by_deadline": cut,
         "stopped_after_smoke_phase": stopped_after_smoke,
